@@ -3,6 +3,8 @@ import io
 
 from hypothesis import strategies as st
 
+from mv import hperm
+
 from mv.runner import EnumPart, HypPart, Violation
 
 PROPERTY = "C14"
@@ -230,7 +232,7 @@ def random_case(draw):
     table = _table()
     ms = sorted(table.values())
     tol = draw(st.one_of(st.sampled_from([0.01, 0.1]), st.floats(1e-3, 2.0)))
-    n = draw(st.integers(1, 6))
+    n = draw(hperm.integers(1, 6))
     masses = []
     for _ in range(n):
         base = draw(st.sampled_from(ms))
